@@ -9,7 +9,7 @@ from translator import t9_circuit_core, t10_circuit_algos
 ID = 'C10'
 TRANSLATORS = [t9_circuit_core.translate, t10_circuit_algos.translate]
 PROPERTY_FILE = 'Properties/C10.v'
-THEOREMS = ['C10_result_wf', 'C10_connect_left', 'C10_left_induced_assignment', 'C10_connect_right',
+THEOREMS = ['C10_result_wf', 'C10_result_arities_accepted', 'C10_result_evaluates', 'C10_connect_left', 'C10_left_induced_assignment', 'C10_connect_right',
             'C10_mapping_pairs', 'C10_mapping_keys', 'C10_new_labels_fresh',
             'C10_connect_left_wrapper', 'C10_connect_right_wrapper', 'C10_connect_inputs_wrapper',
             'C10_extend_circuit_left', 'C10_extend_circuit_right', 'C10_add_circuit',
@@ -19,7 +19,9 @@ THEOREMS = ['C10_result_wf', 'C10_connect_left', 'C10_left_induced_assignment', 
 PARTIAL = {}
 LEVEL_TEXT = ('proved for the model of connect_circuit in both directions and for connect_left / connect_right / '
               'connect_inputs / extend_circuit / add_circuit as instances, over the relational three-valued semantics '
-              'Eval (all assignments, partial ones included), for every normal return: the result is well formed; its '
+              'Eval (all assignments, partial ones included), for every normal return: the result is well formed and has '
+              'accepted operand counts when both constituents have (so evaluate / get_truth_table return on it with exactly '
+              'the Eval values described here: completeness of the evaluators, C01); its '
               'inputs are the base inputs that are still INPUT gates followed by the renamed unconnected inputs of the '
               'attached circuit, its outputs the base outputs that are not connectors followed by the renamed '
               'unconnected outputs of the attached circuit; LEFT: every base gate keeps its value and every gate l of '
